@@ -101,7 +101,7 @@ def run_traced(c, lazy):
 
 
 # ----------------------------------------------------------------------------- numeric pipelines
-def gen_pipeline(ctx: Ctx, focus=False, force_algorithm=False, failing=False):
+def gen_pipeline(ctx: Ctx, focus=False, force_algorithm=False, failing=False, partial_blocks=False):
     """random pipeline; `focus`: the region where most bookkeeping meets — ensemble potential x several exit planes x a
     detector that drops base axes x a scan"""
     rng = ctx.rng
@@ -112,6 +112,7 @@ def gen_pipeline(ctx: Ctx, focus=False, force_algorithm=False, failing=False):
     spec = None if kind == "none" else rng.randint(1, n + 1) if kind == "int" else \
         ([-1] if rng.random() < 0.5 else []) + sorted(rng.sample(range(n), rng.randint(1, n)))
     builder = rng.choice(["probe", "probe", "plane"])
+    builder_was_plane = builder == "plane"
     if builder == "plane":
         scan = "none"
         dets = rng.choice([["waves"], ["pixelated"], ["waves", "pixelated"]])
@@ -132,6 +133,11 @@ def gen_pipeline(ctx: Ctx, focus=False, force_algorithm=False, failing=False):
     entry = "builder" if kind == "build" else rng.choice(["builder", "builder", "real", "reciprocal"])
     slow = ["realspace"] if ctx.thorough else []  # long JIT compilation per process: thorough tier (quick: traced only)
     algorithm = rng.choice(["default", "default", "fourier-conjugate", "fourier-transpose", "fourier-order2"] + slow)
+    if partial_blocks:  # scan shapes that are not a multiple of the chunk chosen from max_batch (a smaller trailing block)
+        builder, entry, kind = "probe", "builder", "multislice"
+        scan = rng.choice(["grid", "grid", "line"])
+        if dets == ["waves"] or builder_was_plane:
+            dets = rng.choice([["annular"], ["pixelated"], ["annular", "flexible", "waves"]])
     fail = "none"
     if failing:  # pipelines that must fail — in both modes, with the same exception class
         fail = rng.choice(["detector-angle", "grid-mismatch", "exit-plane-range"])
@@ -146,8 +152,10 @@ def gen_pipeline(ctx: Ctx, focus=False, force_algorithm=False, failing=False):
     if force_algorithm:  # a non-default algorithm keyword must reach every lazy block
         algorithm = rng.choice(["fourier-conjugate", "fourier-transpose"] + slow)
         kind = "multislice"
+    if partial_blocks:
+        post = "none"
     return dict(fail=fail, ens_probe=ens_probe, algorithm=algorithm, entry=entry, kind=kind, post=post, nslices=n, atoms=atoms, pot=pot, spec=spec, builder=builder, scan=scan, dets=dets, gpts=rng.choice([8, 12]),
-                ncfg=rng.randint(1, 3), seed=rng.randint(1, 10 ** 6), max_batch=rng.choice(["auto", 1, 2, 3]),
+                ncfg=rng.randint(1, 3), seed=rng.randint(1, 10 ** 6), max_batch=(2 if partial_blocks else rng.choice(["auto", 1, 2, 3])),
                 scheduler=rng.choice(["synchronous", "synchronous", "threads"]),
                 points=[[dyadic(rng, 0, 3.5, 2), dyadic(rng, 0, 3.5, 2)] for _ in range(rng.randint(1, 3))])
 
@@ -382,7 +390,7 @@ class C01(Property):
 
     def conformance(self, ctx: Ctx):
         for i in range(ctx.n(36, 250)):
-            c = gen_pipeline(ctx, focus=(i % 4 == 3), force_algorithm=(i % 4 == 1), failing=(i % 6 == 2))
+            c = gen_pipeline(ctx, focus=(i % 4 == 3), force_algorithm=(i % 4 == 1), failing=(i % 6 == 2), partial_blocks=(i % 6 == 4))
             self.oracle(ctx, c)
             ctx.count(f"numeric:{c['kind']}:{c['pot']}:{c['builder']}:scan={c['scan']}:batch={c['max_batch']}:{c['scheduler']}:post={c['post']}:entry={c['entry']}:{c['algorithm']}:fail={c['fail']}:ensprobe={c['ens_probe']}")
             ctx.case(c, nontrivial=True)
